@@ -507,7 +507,9 @@ def nonlinear(ctx, cfg):
     shape = SHAPES[shp]
     f = NLF[fname]
     if kind == "xconc":
-        x = torch.tensor([complex(a, b) for a, b in XCONC[shp]], dtype=torch.complex64)
+        # complex128: with concrete x and concrete P the re-executions at unit vectors run on the real float kernels, and in complex64
+        # the cancellation (f(x) + s) - f(x) would put a 1e-5 relative error on the extracted coefficient
+        x = torch.tensor([complex(a, b) for a, b in XCONC[shp]], dtype=torch.complex128)
     else:
         x = make_input(ctx, kind, shape)
     with ctx.sym():
@@ -688,8 +690,8 @@ def _meas_cfgs(tier):
                 out.append(Cfg("estimate_signal_power", kind, shp, dim, keep))
             out.append(Cfg("calculate_snr", kind, shp, dim, False))
         for shp in ("n3", "2x2", "1x3"):
-            if shp == "2x2" and kind == "complex" and tier == "quick":
-                continue  # path-feasibility query (row noise power < eps under P_n >= 1e-3) needs ~60 s of nlsat on a loaded machine: thorough only
+            if shp == "2x2" and kind == "complex":
+                continue  # path-feasibility query (row noise power < eps under P_n >= 1e-3, 8 real unknowns per row) does not terminate reliably in nlsat: batched complex rows are covered by C07.snr_grid (bounded) only
             for mode in ("db", "linear"):
                 out.append(Cfg("metric", kind, shp, mode))
     return out
@@ -1048,7 +1050,7 @@ def _seed_cfgs(tier):
 @obligation("C07.same_seed_scaling", function=FA + ":_apply_noise; " + FA + ":AWGNChannel.forward; " + FL + "forward; " + FA + ":NonlinearChannel.forward; " + FA + ":FlatFadingChannel.forward; " + FU + ":add_noise_for_snr", configs=_seed_cfgs, kind="custom", engine="standin")
 def same_seed_scaling(spec, cfg, tier, seed):
     """noise(seed, P2) == sqrt(P2/P1) * noise(seed, P1) over six decades of P (and of the signal power for the SNR parameterisation):
-    the noise scale is exactly the square root of the configured power.  Deterministic (same torch seed), float32, rtol 2e-4."""
+    the noise scale is exactly the square root of the configured power.  Deterministic (same torch seed), float64 inputs, rtol 2e-4 (the library rounds the noise scale to float32)."""
     import time
 
     from kaira.channels import analog as A
@@ -1058,10 +1060,11 @@ def same_seed_scaling(spec, cfg, tier, seed):
     _, ch, kind = cfg
     g = torch.Generator().manual_seed(1234 + seed)
     n = 64 if tier == "quick" else 4096
-    x = torch.randn(2, n, generator=g)
+    # float64 inputs: the noise is observed as channel(x) - base, and that subtraction would cost eps32 * |x| in float32
+    x = torch.randn(2, n, generator=g, dtype=torch.float64)
     if kind == "complex":
-        x = torch.complex(x, torch.randn(2, n, generator=g))
-    h = torch.complex(torch.randn(2, n, generator=g), torch.randn(2, n, generator=g))
+        x = torch.complex(x, torch.randn(2, n, generator=g, dtype=torch.float64))
+    h = torch.complex(torch.randn(2, n, generator=g, dtype=torch.float64), torch.randn(2, n, generator=g, dtype=torch.float64))
 
     def noise_P(P, s=1234):
         torch.manual_seed(s)
